@@ -655,10 +655,12 @@ func (c *handlerCtx) handleReply() {
 		c.stat = c.callCmd.stat
 		// before done(): CostTime() may be read as soon as the call is complete
 		c.callCmd.cost = time.Duration(c.sess.timeNow() - c.callCmd.start)
-		c.callCmd.done()
+		// the run log reads the call's argument and result objects: it is written before the call is
+		// completed, after that they belong to the caller again
 		if enablePrintRunLog() {
 			c.sess.printRunLog(c.RealIP(), c.callCmd.cost, c.input, c.callCmd.output, typeCallLaunch)
 		}
+		c.callCmd.done()
 		// lock: bindReply
 		c.callCmd.mu.Unlock()
 	}()
